@@ -127,10 +127,20 @@ def max_diff(a, b):
     return d
 
 
-def run_case(case, abort_after=None, seed_on_resume=None):
+def tree(d):
+    """every file below d, relative"""
+    return sorted(str(p.relative_to(d)) for p in d.rglob("*") if p.is_file())
+
+
+def run_case(case, abort_after=None, seed_on_resume=None, move=None):
     """Run the real backend in a scratch directory with a fake clock (every progress() autosaves).
     abort_after=None: uninterrupted; returns results and the number of saves.
-    abort_after=k: raise out of the k-th save right after it completed, then MPSBackend.resume(file)."""
+    abort_after=k: raise out of the k-th save right after it completed, then MPSBackend.resume(file).
+    move: None = resume in place; "keep" = the autosave file is first moved to another directory under another
+    name (original directory kept); "delete" = same and the original directory is deleted."""
+    import os
+    import shutil
+
     import emu_mps.mps_backend_impl as im
     import emu_mps.optimatrix as optimat
     from emu_mps import MPSBackend
@@ -147,7 +157,9 @@ def run_case(case, abort_after=None, seed_on_resume=None):
     rng = ScriptedRandom(seed=case.get("seed", 1))
 
     def save_wrapper(self):
+        before = self.last_save_time
         orig_save(self)
+        saves["written"] = saves.get("written", 0) + (1 if self.last_save_time != before else 0)
         saves["n"] += 1
         saves["file"] = self.autosave_file
         saves["progress"].append([self._timestep_index, self._sweep_index, self._swipe_direction.name])
@@ -158,6 +170,8 @@ def run_case(case, abort_after=None, seed_on_resume=None):
 
     out = {"aborted": False, "resumed": False}
     with mr.scratch_dir("c26") as d:
+        (d / "orig").mkdir()
+        os.chdir(d / "orig")  # the autosave file is created in the cwd of the interrupted run
         binds = dict(time=mr.FakeClock(), random=rng)
         with mr.rebound(im, **binds), mr.rebound(im.MPSBackendImpl, save_simulation=save_wrapper), \
                 mr.rebound(optimat, **({"minimize_bandwidth": (lambda m: perm.clone())} if perm is not None else {})):
@@ -170,13 +184,24 @@ def run_case(case, abort_after=None, seed_on_resume=None):
         out["jumps"] = rng.jumps
         out["perm_used"] = saves.get("perm_used")
         out["progress"] = saves["progress"]
-        out["files_after_run"] = sorted(p.name for p in d.iterdir())
+        os.chdir(d)
+        out["files_after_run"] = tree(d)
         if out["aborted"]:
             f = saves["file"]
             out["autosave_present_after_crash"] = f.is_file()
+            if move is not None and f.is_file():
+                (d / "moved").mkdir()
+                f = pathlib.Path(shutil.move(str(f), str(d / "moved" / "renamed_autosave.dat")))
+                if move == "delete":
+                    shutil.rmtree(d / "orig")
+            out["resumed_from"] = str(f.relative_to(d))
             rng2 = ScriptedRandom(seed=seed_on_resume, state=None if seed_on_resume is not None else saves["rng_state"])
             saves["n"] = -10 ** 9  # no further abort
-            with mr.rebound(im, time=mr.FakeClock(), random=rng2), \
+            saves["written"] = 0
+            import emu_mps.mps_backend as mb
+
+            clock = mr.FakeClock()  # also seen by resume(): last_save_time is on the same clock, autosaves fall due
+            with mr.rebound(im, time=clock, random=rng2), mr.rebound(mb, time=clock), \
                     mr.rebound(im.MPSBackendImpl, save_simulation=save_wrapper):
                 try:
                     res = MPSBackend.resume(f)
@@ -184,7 +209,8 @@ def run_case(case, abort_after=None, seed_on_resume=None):
                 except Exception as ex:  # noqa: BLE001
                     out["resume_error"] = f"{type(ex).__name__}: {str(ex)[:300]}"
                     res = None
-            out["files_after_resume"] = sorted(p.name for p in d.iterdir())
+            out["saves_during_resume"] = saves["written"]
+            out["files_after_resume"] = tree(d)
         out["results"] = None if res is None else canon(res)
         return out
 
@@ -219,7 +245,7 @@ def gen_cases(ctx):
          "local": {"target": 1, "amp": 4.0, "det": -6.0, "phase": 0.5}},
     ]
     cases += base
-    for _ in range(ctx.n(10, 150)):
+    for _ in range(ctx.n(7, 150)):
         n = rng.choice([2, 3, 4])
         solver = rng.choice(["tdvp", "tdvp", "dmrg"])
         noisy = solver == "tdvp" and rng.random() < 0.35
@@ -305,7 +331,45 @@ def check_case(ctx, case, ks=None, stats=None):
             n_bad += 1
             if n_bad >= 3:
                 break  # enough witnesses from this configuration
+    # the autosave file is moved/renamed before resuming (original directory kept / deleted)
+    if ks is None and n_saves >= 2:
+        for mv in ("keep", "delete"):
+            for k in [max(1, n_saves // 2)] if thorough_moves is False else range(1, n_saves):
+                ok &= moved_check(ctx, case, k, mv, ref, stats)
     return ok
+
+
+thorough_moves = False
+
+
+def moved_check(ctx, case, k, mv, ref=None, stats=None) -> bool:
+    ref = ref or run_case(case)
+    r = run_case(case, abort_after=k, move=mv)
+    if not r["aborted"]:
+        return True
+    ctx.count_case({"case": case, "k": k, "moved": mv, "saves_during_resume": r.get("saves_during_resume")}, True)
+    if stats is not None:
+        stats[f"moved/{mv}"] = stats.get(f"moved/{mv}", 0) + 1
+        stats["autosaves_during_moved_resumes"] = stats.get("autosaves_during_moved_resumes", 0) + \
+            (r.get("saves_during_resume") or 0)
+    why, key = None, None
+    if not r["resumed"]:
+        why, key = f"MPSBackend.resume(moved file) failed: {r.get('resume_error')}", "resume-from-moved-file-fails"
+    else:
+        dd = max_diff(ref["results"], r["results"])
+        if dd is None or dd > TOL:
+            why, key = f"results differ after resuming from the moved file (max diff {dd})", "resumed-run-differs"
+        elif r["files_after_resume"]:
+            left = r["files_after_resume"]
+            key = "resumed-file-not-removed"
+            why = (f"after the resumed run finished the file it was resumed from ({r['resumed_from']}) "
+                   f"{'is still there' if r['resumed_from'] in left else 'is gone'}; files left: {left}")
+    if why:
+        ctx.violation(f"autosave file moved ({mv} original directory) before resume after save {k}/{ref['saves']}: {why}",
+                      {"case": case, "k": k, "moved": mv, "finding_key": key, "detail": why,
+                       "files_after_resume": r.get("files_after_resume"), "resumed": r["results"]})
+        return False
+    return True
 
 
 def loose_noisy_check(ctx, case):
@@ -349,8 +413,11 @@ def run(ctx):
         try:
             ev = common.CoqEval("C26", HEADER)
             ev.add("(pickle_ok step_reads get_over set_over (rebinds resume_flow), same_post run_flow resume_flow, "
-                   "removes run_tail)")
-            pk, sp, rm = parse(ev.run()[0])
+                   "removes run_tail, file_rebound resume_flow)")
+            pk, sp, rm, fr = parse(ev.run()[0])
+            ctx.obligation("file_rebound resume_flow = true (vm_compute)", bool(fr),
+                           "resume does not rebind impl.autosave_file to the path it was given between the load and the "
+                           f"run: the resumed run autosaves to / removes the path recorded in the pickle: {info['resume_flow']}")
             ctx.extra["generated"] = info
             ctx.obligation("pickle_ok step_reads get_over set_over (rebinds resume_flow) = true (vm_compute)", bool(pk),
                            "a field read by the stepping is rebound by resume or transformed by __getstate__/__setstate__ "
@@ -365,6 +432,8 @@ def run(ctx):
             ctx.obligation("evaluate pickle_ok/same_post/removes", False, str(ex), kind="build")
 
     # ---- real crash/resume correspondence (also the falsifier)
+    global thorough_moves
+    thorough_moves = ctx.thorough()
     stats = {}
     for c in corpus_cases():
         check_case(ctx, c["case"], ks=[c["k"]] if c.get("k") else None, stats=stats)
@@ -394,6 +463,7 @@ def run(ctx):
         "(the random module of mps_backend_impl is rebound to a positionable stream) plus a structural/range check "
         "with a fresh stream",
         "crash = exception raised right after save_simulation returned (crashes inside save_simulation: C27)",
+        "moved-file scenarios: the file is moved with shutil.move to <scratch>/moved/renamed_autosave.dat before resume",
     ]
 
 
@@ -404,6 +474,14 @@ def replay(ctx, path):
         ctx.violation(rp.get("what", "?"), {"broken": rp.get("broken")}, found_input=False)
         return
     c, k = rp["case"], rp.get("k")
+    if rp.get("moved"):
+        r = run_case(c, abort_after=k, move=rp["moved"])
+        print("case:", c, "k:", k, "moved:", rp["moved"])
+        print("resumed:", r["resumed"], r.get("resume_error"), "| resumed from:", r.get("resumed_from"),
+              "| files left:", r.get("files_after_resume"), "| autosaves during resume:", r.get("saves_during_resume"))
+        if moved_check(ctx, c, k, rp["moved"]):
+            print("replay: property holds on this input now")
+        return
     ref = run_case(c)
     print("case:", c, "k:", k)
     print("uninterrupted atom_order:", ref["results"]["atom_order"], "occupation:",
